@@ -1048,7 +1048,10 @@ func (w *World) performs(in ssa.Instruction, names []string, depth int) bool {
 // dataDeps: the intra-procedural backward data slice of v: every value v is computed from, through
 // operands, phis, tuple extracts, and loads of locals (all stores to the Alloc or to a field/element
 // of it).  Control dependences are not followed.
-func dataDeps(v ssa.Value) map[ssa.Value]bool {
+func dataDeps(v ssa.Value) map[ssa.Value]bool { return dataDepsUntil(v, nil) }
+
+// dataDepsUntil: as dataDeps, but the operands of values for which stop is true are not followed.
+func dataDepsUntil(v ssa.Value, stop func(ssa.Value) bool) map[ssa.Value]bool {
 	seen := map[ssa.Value]bool{}
 	var work []ssa.Value
 	push := func(x ssa.Value) {
@@ -1102,10 +1105,16 @@ func dataDeps(v ssa.Value) map[ssa.Value]bool {
 	for len(work) > 0 {
 		x := work[len(work)-1]
 		work = work[:len(work)-1]
+		if stop != nil && stop(x) {
+			continue
+		}
 		if u, ok := x.(*ssa.UnOp); ok && u.Op == token.MUL {
 			if al := baseAlloc(u.X); al != nil {
 				storesInto(al, 0)
 			}
+		}
+		if al, ok := x.(*ssa.Alloc); ok {
+			storesInto(al, 0) // a pointer to a local depends on what the local was given
 		}
 		in, ok := x.(ssa.Instruction)
 		if !ok {
